@@ -247,6 +247,11 @@ fn const_json<'tcx>(
 		} else if let Some(bytes) = const_bytes(tcx, owner, &c.const_) {
 			out.push_str(",\"s\":");
 			jbytes_as_str(out, &bytes);
+		} else if let Some(v) = const_enum_variant(tcx, owner, &c.const_) {
+			// a constant of a field-less enum type (or a reference to one, e.g. the promoted
+			// `&ErrorKind::NotFound` of `e.kind() == ErrorKind::NotFound`): its variant name
+			out.push_str(",\"ev\":");
+			jstr(out, &v);
 		} else {
 			match c.const_ {
 				MirConst::Unevaluated(uv, _) => {
@@ -261,6 +266,55 @@ fn const_json<'tcx>(
 		}
 	}
 	out.push('}');
+}
+
+fn const_enum_variant<'tcx>(tcx: TyCtxt<'tcx>, owner: DefId, c: &MirConst<'tcx>) -> Option<String> {
+	let ty = c.ty();
+	let (inner, is_ref) = match ty.kind() {
+		ty::Ref(_, i, _) => (*i, true),
+		_ => (ty, false),
+	};
+	let adt = match inner.kind() {
+		ty::Adt(a, _) if a.is_enum() && a.variants().iter().all(|v| v.fields.is_empty()) => *a,
+		_ => return None,
+	};
+	let env = TypingEnv::post_analysis(tcx, owner);
+	let layout = tcx.layout_of(env.as_query_input(inner)).ok()?;
+	let size = layout.size.bytes() as usize;
+	if size == 0 || size > 8 {
+		return None;
+	}
+	let val = match c {
+		MirConst::Val(v, _) => *v,
+		MirConst::Unevaluated(..) | MirConst::Ty(..) => c.eval(tcx, env, rustc_span::DUMMY_SP).ok()?,
+	};
+	let bits: u128 = match val {
+		ConstValue::Scalar(rustc_middle::mir::interpret::Scalar::Int(si)) if !is_ref => si.to_bits(si.size()),
+		ConstValue::Scalar(rustc_middle::mir::interpret::Scalar::Ptr(ptr, _)) if is_ref => {
+			let (prov, offset) = ptr.into_raw_parts();
+			match tcx.try_get_global_alloc(prov.alloc_id())? {
+				rustc_middle::mir::interpret::GlobalAlloc::Memory(a) => {
+					let alloc = a.inner();
+					let off = offset.bytes() as usize;
+					if off + size > alloc.len() {
+						return None;
+					}
+					let raw = alloc.inspect_with_uninit_and_ptr_outside_interpreter(off..off + size);
+					let mut b = [0u8; 16];
+					b[..size].copy_from_slice(raw);
+					u128::from_le_bytes(b)
+				},
+				_ => return None,
+			}
+		},
+		_ => return None,
+	};
+	for (vidx, discr) in adt.discriminants(tcx) {
+		if discr.val == bits {
+			return Some(adt.variant(vidx).name.to_string());
+		}
+	}
+	None
 }
 
 fn const_bytes<'tcx>(tcx: TyCtxt<'tcx>, owner: DefId, c: &MirConst<'tcx>) -> Option<Vec<u8>> {
